@@ -113,6 +113,8 @@ class C05Oracle(BaseOracle):
                           explainer=k, cls=ecfg["cls"])
         if N == 0:
             return None
+        if ys_expected is None and w.values != "unique":
+            return None     # targets of the explained rows are recovered from unique row values only
         if ys_expected is not None:
             ys = ys_expected
         else:
@@ -278,3 +280,21 @@ class C05Oracle(BaseOracle):
                           explainer=k, cls="interval")
         self.prev_ret[k] = dict(ctx.ret)
         return None
+
+
+class C05ResumedOracle(C05Oracle):
+    """For C17: after a failed call the schedule ordinal of IntervalSage is not an "estimate", so only the values of
+    every recomputation that does happen are judged (sum identity and per-feature reference over the data the
+    library actually explained)."""
+
+    def after_op(self, ctx):
+        op = ctx.op
+        if op["op"] not in ("explain", "many", "many_orig") or ctx.explainer is None or ctx.outcome != "ok":
+            return None
+        if ctx.ecfg["cls"] not in ("batch", "interval"):
+            return None
+        if not any(ev[0] == "MB" for ev in ctx.events):
+            return None
+        if op["op"] in ("many", "many_orig"):
+            return self.check_recompute(ctx, ctx.x_before, ctx.y_before, op["op"] == "many_orig")
+        return self.check_recompute(ctx, None, None, bool(op.get("original")))
